@@ -190,6 +190,11 @@ def typecode(msg: str) -> Optional[int]:
 def cprNL(lat: float) -> int:
     """NL() function in CPR decoding."""
 
+    # compute in double precision whatever the type of the argument:
+    # a numpy.float32 latitude would be evaluated in single precision and
+    # land in the neighbouring zone up to 5e-6 deg from a transition
+    lat = float(lat)
+
     if np.isclose(lat, 0):
         return 59
     elif lat > 87 or lat < -87:
